@@ -37,9 +37,10 @@ TEXTS = ['', '1', '10', '9', '-1', 'a', 'ab', 'b', 'true', 'Apple', 'apple', 'B'
 POOL = NUMBERS + DATES + TEXTS + [True, False, None]
 NONBLANK = [i for i, v in enumerate(POOL) if v is not None]
 
-# delivery-channel differential (core.Env): of every 2 evaluations that bind variables, one is repeated with the
-# values handed in by the cell/range listeners and one with the values returned by custom functions; outcomes must agree
-CHANNELS = 2
+# delivery-channel and host-type differential (core.Env): of every 3 evaluations that bind variables, one is repeated with the
+# values handed in by the cell/range listeners, one with the values returned by custom functions and one with every value an
+# instance of a trivial subclass of its type (numpy.float64, IntEnum, rich-text str ... are such); outcomes must agree
+CHANNELS = 3
 
 BOUNDS = {
     'quick': '33 values (13 numbers incl. negative/fractional, two equal to date serials and adjacent integers above 2^53, 5 date(-time)s from '
